@@ -36,6 +36,8 @@ fn main() {
 /// (cfg name, file below <ddnnife>/src, needle)
 const HOOK_PROBES: &[(&str, &str, &str)] = &[
     ("has_h3", "ddnnf/anomalies/config_creation.rs", "pub fn verif_set_sched_callback"),
+    // H3b (with repair F21): the enumeration cursor is a field of Ddnnf, reset / snapshot per instance
+    ("has_h3b", "ddnnf.rs", "pub fn verif_reset_enumeration_cursor"),
     ("verif_h7", "ddnnf/anomalies/t_wise_sampling.rs", "pub fn verif_t_indices"),
     // H9: order-decision log of the t-wise sampler (replayed by chk_c09 in the extracted model)
     ("verif_h9", "ddnnf/anomalies/t_wise_sampling.rs", "pub fn verif_twise_log_start"),
